@@ -9,12 +9,12 @@ import (
 	"context"
 	"github.com/grpc-ecosystem/go-grpc-middleware/util/metautils"
 	"github.com/onosproject/onos-api/go/onos/topo"
+	"github.com/onosproject/onos-config/pkg/utils"
 	"github.com/onosproject/onos-lib-go/pkg/errors"
 	baseClient "github.com/openconfig/gnmi/client"
 	"github.com/openconfig/gnmi/proto/gnmi"
 	"google.golang.org/protobuf/proto"
 	"io"
-	"strings"
 )
 
 // Tracks the NB stream, the originating NB subscription request and the split SB requests
@@ -30,7 +30,7 @@ func (s *Server) Subscribe(stream gnmi.GNMI_SubscribeServer) error {
 	log.Info("Received gNMI Subscribe stream")
 	groups := make([]string, 0)
 	if md := metautils.ExtractIncoming(stream.Context()); md != nil && md.Get("name") != "" {
-		groups = append(groups, strings.Split(md.Get("groups"), ";")...)
+		groups = append(groups, utils.CallerGroups(md)...)
 		log.Debugf("gNMI Get() called by '%s (%s)'. Groups %v. Token %s",
 			md.Get("name"), md.Get("email"), groups, md.Get("at_hash"))
 	}
